@@ -3,7 +3,8 @@
   (`SyModel.Hardlink.Protocol`) and their preservation by every micro-step.
   `Inv`  — protocol bookkeeping (both variants, no assumption on the destination);
   `InvR` — what needs the repaired protocol (nobody waits on a worker that cannot move);
-  `InvD` — the destination name space (needs a well-formed pre-run destination, `Cfg.DstOk`).
+  `InvD` — the destination name space (needs `Cfg.DstOk`: old inode ids ≥ n, one content per inode;
+           nothing about which names share an inode).
 -/
 import SyModel.Lemmas.HardlinkMeasure
 namespace SyModel.Hardlink
@@ -53,6 +54,12 @@ def Pc.beforeRelink : Pc → Bool
   | .linkOp _ _ | .done _ => false
   | _ => true
 
+/-- the worker's own copy / rewrite is in place and it has not failed since: owners (and ordinary
+    files) from the end of their copy operation to their successful return. -/
+def Pc.rootPc : Pc → Bool
+  | .metaOp | .complete | .notifyOk | .done .ok => true
+  | _ => false
+
 theorem Pc.holdsClaim_not_done (pc : Pc) (h : pc.holdsClaim = true) : pc.isDone = false := by
   cases pc <;> simp_all [Pc.holdsClaim, Pc.isDone]
 
@@ -98,23 +105,26 @@ structure InvR (cfg : Cfg) (s : State) : Prop where
   snapArmed : ∀ v g snap, s.pc v = .armed g snap → snap ≤ s.calls g
 
 /-- The pre-run destination is a real name space: inode ids of existing files do not collide with
-    the ids of inodes created in the run, names of one inode show one content, and — the condition
-    the current code needs (`C13/update-writes-through-foreign-link`) — two names of one destination
-    inode belong to one source inode. -/
+    the ids of inodes created in the run and names of one inode show one content. Nothing is assumed
+    about *which* names share an inode: links between names of different source files (the source
+    was regrouped since the last `-H` sync) are allowed. -/
 structure Cfg.DstOk (cfg : Cfg) : Prop where
   oldInodes : ∀ q f, q < cfg.n → (cfg.worker q).dst0 = some f → cfg.n ≤ f.ino
   inoContent : ∀ q r fq fr, q < cfg.n → r < cfg.n → (cfg.worker q).dst0 = some fq →
     (cfg.worker r).dst0 = some fr → fq.ino = fr.ino → fq.content = fr.content
-  noForeignLinks : ∀ q r fq fr, q < cfg.n → r < cfg.n → (cfg.worker q).dst0 = some fq →
-    (cfg.worker r).dst0 = some fr → fq.ino = fr.ino → (cfg.worker q).inode = (cfg.worker r).inode
   /-- the planner issues an update only for an existing destination file -/
   updateHasDst : ∀ q, q < cfg.n → (cfg.worker q).action = .update → (cfg.worker q).dst0.isSome = true
 
 /-- The destination name space (`(s.dst q).map File.ino` = the inode a path names, if it exists). -/
 structure InvD (cfg : Cfg) (s : State) : Prop where
-  /-- names of one destination inode belong to one source inode -/
-  refines : ∀ q r i, (s.dst q).map File.ino = some i → (s.dst r).map File.ino = some i →
-    (cfg.worker q).inode = (cfg.worker r).inode
+  /-- every name of the inode that a *root* names — a path whose own copy / rewrite is in place:
+      an ordinary file, or the recorded first path of its group — belongs to the root's source
+      inode -/
+  refines : ∀ p r i, (s.pc p).rootPc = true →
+    (((cfg.worker p).linked = false ∧ (cfg.worker p).action ≠ .skip) ∨ (s.pc p).copied = true ∨
+      s.map (cfg.worker p).inode = some (.completed p)) →
+    (s.dst p).map File.ino = some i → (s.dst r).map File.ino = some i →
+    (cfg.worker p).inode = (cfg.worker r).inode
   /-- names of one inode show one content -/
   inoContent : ∀ q r i, (s.dst q).map File.ino = some i → (s.dst r).map File.ino = some i →
     (s.dst q).map File.content = (s.dst r).map File.content
@@ -174,6 +184,20 @@ theorem wt_none (d : Nat → Option File) (w c v : Nat) : writeThrough d w c v =
   cases hw : d w <;> cases hv : d v <;> simp
   split <;> simp
 
+theorem sharedIno_false {n : Nat} {dst : Nat → Option File} {w i : Nat} (h : sharedIno n dst w i = false)
+    (q : Nat) (hq : q < n) (hne : q ≠ w) : (dst q).map File.ino ≠ some i := by
+  unfold sharedIno at h
+  simp only [List.any_eq_false, List.mem_range] at h
+  have := h q hq
+  cases hd : dst q with
+  | none => simp
+  | some f =>
+    rw [hd] at this
+    simp only [Option.map_some, ne_eq, Option.some.injEq]
+    intro he
+    apply this
+    simp [hne, he]
+
 theorem inv_init (cfg : Cfg) : Inv cfg (init cfg) := by
   constructor
   · intro v _; simp only [init]; split <;> rfl
@@ -191,7 +215,7 @@ theorem invR_init (cfg : Cfg) : InvR cfg (init cfg) := by
   · intro v g snap h; simp only [init] at h; split at h <;> cases h
 
 theorem invD_init (cfg : Cfg) (h : cfg.DstOk) : InvD cfg (init cfg) := by
-  obtain ⟨h1, h2, h3, h4⟩ := h
+  obtain ⟨h1, h2, h4⟩ := h
   have key : ∀ q i, ((init cfg).dst q).map File.ino = some i →
       q < cfg.n ∧ ∃ f, (cfg.worker q).dst0 = some f ∧ f.ino = i := by
     intro q i hq
@@ -205,10 +229,15 @@ theorem invD_init (cfg : Cfg) (h : cfg.DstOk) : InvD cfg (init cfg) := by
   have dst_eq : ∀ q, q < cfg.n → (init cfg).dst q = (cfg.worker q).dst0 := by
     intro q hq; simp [init, hq]
   constructor
-  · intro q r i hq hr
-    obtain ⟨hq', fq, hfq, hiq⟩ := key q i hq
-    obtain ⟨hr', fr, hfr, hir⟩ := key r i hr
-    exact h3 q r fq fr hq' hr' hfq hfr (by rw [hiq, hir])
+  · intro p r i hroot hor _ _
+    simp only [init] at hroot hor
+    split at hroot
+    · rename_i hskip
+      simp only [hskip, ↓reduceIte, Pc.copied, Bool.false_eq_true, reduceCtorEq, false_or] at hor
+      rcases hor with ⟨_, hact⟩ | hm
+      · exact absurd rfl hact
+      · cases hm
+    · simp [Pc.rootPc] at hroot
   · intro q r i hq hr
     obtain ⟨hq', fq, hfq, hiq⟩ := key q i hq
     obtain ⟨hr', fr, hfr, hir⟩ := key r i hr
@@ -290,26 +319,26 @@ set_option hygiene false in
 /-- the clauses of `InvD`; every clause keeps only the hypotheses it needs. -/
 macro "invD_clauses" : tactic => `(tactic| (
   constructor
-  · intro q r i; clear h1 h2 h3 h4 h7 hw1 hw2 hw7 d2 d4 d5 d6 d6' d7 d8 hd5 d9
-    simp only [State.apply, wt_ino, wt_content, apply_ite (Option.map File.ino), apply_ite (Option.map File.content), Option.map_some, Option.map_none]; grind [isSome_of_ino, Option.isSome_some, Option.isSome_none]
-  · intro q r i; clear h1 h2 h3 h4 h5 h6 h7 hw1 hw2 hw6 hw7 d4 d5 d6 d6' d7 d8 hd5 d9
-    simp only [State.apply, wt_ino, wt_content, apply_ite (Option.map File.ino), apply_ite (Option.map File.content), Option.map_some, Option.map_none]; grind [Pc.pastCopy, isSome_of_ino, Option.isSome_some, Option.isSome_none]
-  · intro q i; clear h1 h2 h3 h4 h7 hw1 hw2 hw7 d2 d4 d5 d6 d6' d7 d8 hd5 d9
-    simp only [State.apply, wt_ino, wt_content, apply_ite (Option.map File.ino), apply_ite (Option.map File.content), Option.map_some, Option.map_none]; grind [Pc.pastCopy, isSome_of_ino, Option.isSome_some, Option.isSome_none]
-  · intro i p; clear h1 h2 h3 h4 hw1 d2 d3 d6 d6' d7 d8 hd3 d9
-    simp only [State.apply, wt_ino, wt_content, apply_ite (Option.map File.ino), apply_ite (Option.map File.content), Option.map_some, Option.map_none]; grind [Pc.holdsClaim, isSome_of_ino, Option.isSome_some, Option.isSome_none]
-  · intro v; clear h1 h2 h3 h4 h7 hw1 hw2 hw7 d2 d3 d4 d6 d6' d7 d8 hd3 d9
-    simp only [State.apply, wt_ino, wt_content, apply_ite (Option.map File.ino), apply_ite (Option.map File.content), Option.map_some, Option.map_none]; grind [Pc.copied, isSome_of_ino, Option.isSome_some, Option.isSome_none]
-  · intro v; clear h1 h2 h3 h4 d1 d2 d3 d4 d5 d6' d7 d8 hd3 hd5 d9
-    simp only [State.apply, wt_ino, wt_content, apply_ite (Option.map File.ino), apply_ite (Option.map File.content), Option.map_some, Option.map_none]; grind [isSome_of_ino, Option.isSome_some, Option.isSome_none]
-  · intro v p; clear h1 h2 h3 h4 d3 d5 d7 d8 hd3 hd5 d9
-    simp only [State.apply, wt_ino, wt_content, apply_ite (Option.map File.ino), apply_ite (Option.map File.content), Option.map_some, Option.map_none]; grind [isSome_of_ino, Option.isSome_some, Option.isSome_none]
-  · intro v; clear h2 h3 h4 hw2 d2 d3 d4 d6 d6' d8 hd3 d9
-    simp only [State.apply, wt_ino, wt_content, apply_ite (Option.map File.ino), apply_ite (Option.map File.content), Option.map_some, Option.map_none]; grind [Pc.plainOk, isSome_of_ino, Option.isSome_some, Option.isSome_none]
+  · intro q r i; clear h1 h2 h3 h4 hw1 hw2 d2 d4 d5 d6 d6' d7 hd5 d9
+    simp only [State.apply, wt_ino, wt_content, apply_ite (Option.map File.ino), apply_ite (Option.map File.content), Option.map_some, Option.map_none]; grind [Pc.rootPc, Pc.copied, Pc.pastCopy, sharedIno_false, isSome_of_ino, Option.isSome_some, Option.isSome_none]
+  · intro q r i; clear h1 h2 h3 h4 h5 h6 h7 hw1 hw2 hw6 hw7 d4 d5 d6 d6' d7 hd5 d9
+    simp only [State.apply, wt_ino, wt_content, apply_ite (Option.map File.ino), apply_ite (Option.map File.content), Option.map_some, Option.map_none]; grind [sharedIno_false, Pc.pastCopy, isSome_of_ino, Option.isSome_some, Option.isSome_none]
+  · intro q i; clear h1 h2 h3 h4 h7 hw1 hw2 hw7 d2 d4 d5 d6 d6' d7 hd5 d9
+    simp only [State.apply, wt_ino, wt_content, apply_ite (Option.map File.ino), apply_ite (Option.map File.content), Option.map_some, Option.map_none]; grind [sharedIno_false, Pc.pastCopy, isSome_of_ino, Option.isSome_some, Option.isSome_none]
+  · intro i p; clear h1 h2 h3 h4 hw1 d2 d3 d6 d6' d7 hd3 d9
+    simp only [State.apply, wt_ino, wt_content, apply_ite (Option.map File.ino), apply_ite (Option.map File.content), Option.map_some, Option.map_none]; grind [sharedIno_false, Pc.holdsClaim, isSome_of_ino, Option.isSome_some, Option.isSome_none]
+  · intro v; clear h1 h2 h3 h4 h7 hw1 hw2 hw7 d2 d3 d4 d6 d6' d7 hd3 d9
+    simp only [State.apply, wt_ino, wt_content, apply_ite (Option.map File.ino), apply_ite (Option.map File.content), Option.map_some, Option.map_none]; grind [sharedIno_false, Pc.copied, isSome_of_ino, Option.isSome_some, Option.isSome_none]
+  · intro v; clear h1 h2 h3 h4 d1 d2 d3 d4 d5 d6' d7 hd3 hd5 d9
+    simp only [State.apply, wt_ino, wt_content, apply_ite (Option.map File.ino), apply_ite (Option.map File.content), Option.map_some, Option.map_none]; grind [sharedIno_false, isSome_of_ino, Option.isSome_some, Option.isSome_none]
+  · intro v p; clear h1 h2 h3 h4 d3 d5 d7 hd3 hd5 d9
+    simp only [State.apply, wt_ino, wt_content, apply_ite (Option.map File.ino), apply_ite (Option.map File.content), Option.map_some, Option.map_none]; grind [sharedIno_false, isSome_of_ino, Option.isSome_some, Option.isSome_none]
+  · intro v; clear h2 h3 h4 hw2 d2 d3 d4 d6 d6' hd3 d9
+    simp only [State.apply, wt_ino, wt_content, apply_ite (Option.map File.ino), apply_ite (Option.map File.content), Option.map_some, Option.map_none]; grind [sharedIno_false, Pc.plainOk, isSome_of_ino, Option.isSome_some, Option.isSome_none]
   · intro v; clear h1 h2 h3 h4 h5 h6 h7 hw1 hw2 hw6 hw7 d1 d2 d3 d4 d5 d6 d6' d7 hd3 hd5 d9
-    simp only [State.apply, wt_ino, wt_content, apply_ite (Option.map File.ino), apply_ite (Option.map File.content), Option.map_some, Option.map_none]; grind [wt_none]
-  · intro v; clear h1 h2 h3 h4 h5 h6 h7 hw1 hw2 hw6 hw7 d1 d2 d3 d4 d5 d6 d6' d7 d8 hd3 hd5
-    simp only [State.apply, wt_isSome, apply_ite Option.isSome, Option.isSome_some, Option.isSome_none]; grind [Pc.beforeRelink]))
+    simp only [State.apply, wt_ino, wt_content, apply_ite (Option.map File.ino), apply_ite (Option.map File.content), Option.map_some, Option.map_none]; grind [sharedIno_false, wt_none]
+  · intro v; clear h1 h2 h3 h4 h5 h6 h7 hw1 hw2 hw6 hw7 d1 d2 d3 d4 d5 d6 d6' d7 hd3 hd5
+    simp only [State.apply, wt_isSome, apply_ite Option.isSome, Option.isSome_some, Option.isSome_none]; grind [sharedIno_false, Pc.beforeRelink]))
 
 set_option hygiene false in
 macro "invD_case" hi:ident hd:ident hpc:ident w:ident hnext:ident : tactic => `(tactic| (
@@ -541,10 +570,25 @@ theorem invD_copyOp {k : Nat} (hi : Inv cfg s) (hd : InvD cfg s) (hw : w < cfg.n
     InvD cfg (s.apply w (cfg.worker w).inode e) := by
   cases k <;> invD_case hi hd hpc w hnext
 
+theorem invD_syncOp_succ {k : Nat} (hi : Inv cfg s) (hd : InvD cfg s) (hw : w < cfg.n) (hpc : s.pc w = .syncOp (k + 1))
+    (hnext : next cfg w (cfg.worker w) (.syncOp (k + 1)) (s.map (cfg.worker w).inode) s.calls s.dst = some (l, e)) :
+    InvD cfg (s.apply w (cfg.worker w).inode e) := by
+  invD_case hi hd hpc w hnext
+
+-- four branches (failure, vanished destination, fresh inode, write-through of an unshared inode)
+-- × ten clauses in one declaration
+set_option maxHeartbeats 400000 in
+theorem invD_syncOp_zero (hi : Inv cfg s) (hd : InvD cfg s) (hw : w < cfg.n) (hpc : s.pc w = .syncOp 0)
+    (hnext : next cfg w (cfg.worker w) (.syncOp 0) (s.map (cfg.worker w).inode) s.calls s.dst = some (l, e)) :
+    InvD cfg (s.apply w (cfg.worker w).inode e) := by
+  invD_case hi hd hpc w hnext
+
 theorem invD_syncOp {k : Nat} (hi : Inv cfg s) (hd : InvD cfg s) (hw : w < cfg.n) (hpc : s.pc w = .syncOp k)
     (hnext : next cfg w (cfg.worker w) (.syncOp k) (s.map (cfg.worker w).inode) s.calls s.dst = some (l, e)) :
     InvD cfg (s.apply w (cfg.worker w).inode e) := by
-  cases k <;> invD_case hi hd hpc w hnext
+  cases k with
+  | zero => exact invD_syncOp_zero hi hd hw hpc hnext
+  | succ k => exact invD_syncOp_succ hi hd hw hpc hnext
 
 theorem invD_metaOp (hi : Inv cfg s) (hd : InvD cfg s) (hw : w < cfg.n) (hpc : s.pc w = .metaOp)
     (hnext : next cfg w (cfg.worker w) .metaOp (s.map (cfg.worker w).inode) s.calls s.dst = some (l, e)) :
